@@ -352,6 +352,42 @@ def r6(run, ctx):
     run.check('R6', any(returns_none(h.body, 'ESRCH') for h in hs.get('OSError', [])),
               'no such process (ESRCH) -> stale (None)', v, v.node,
               'a pid file naming a dead process is not taken over')
+    # the only probe failure that means "stale" is ESRCH (EPERM = alive, owned by someone else)
+    def errnos(test):
+        out = set()
+        for e in ast.walk(test):
+            if isinstance(e, ast.Compare) and len(e.ops) == 1:
+                c = e.comparators[0]
+                if isinstance(e.ops[0], ast.Eq) and (dotted(c) or '').startswith('errno.'):
+                    out.add(dotted(c))
+                if isinstance(e.ops[0], ast.Eq) and (dotted(e.left) or '').startswith('errno.'):
+                    out.add(dotted(e.left))
+                if isinstance(e.ops[0], ast.In) and isinstance(c, (ast.Tuple, ast.List, ast.Set)):
+                    out |= {dotted(x) for x in c.elts if dotted(x)}
+        return out
+    def innermost(t):
+        return not any(isinstance(x, ast.Try) and x is not t and any(
+            isinstance(c, ast.Call) and dotted(c.func) == 'os.kill' for c in ast.walk(x))
+            for st in t.body for x in ast.walk(st))
+    for t in ast.walk(v.node):
+        if isinstance(t, ast.Try) and innermost(t) and any(
+                isinstance(c, ast.Call) and dotted(c.func) == 'os.kill'
+                for st in t.body for c in ast.walk(st)):
+            for h in t.handlers:
+                stale = set()
+                bare_return = False
+                for st in h.body:
+                    if isinstance(st, ast.If) and returns_none(st.body):
+                        stale |= errnos(st.test)
+                    if isinstance(st, ast.Return):
+                        bare_return = True
+                run.check('R6', stale == {'errno.ESRCH'} and not bare_return,
+                          'a failed liveness probe means "stale" only for ESRCH; any other error '
+                          '(EPERM = the process exists) is not a take-over', v, h,
+                          'probe errors %s are treated as "no such process": a pid file naming a '
+                          'live process of another user is taken over and later unlinked'
+                          % (sorted(stale) if not bare_return else 'ALL'),
+                          construct='probe errnos treated as stale')
     run.check('R6', any(returns_none(h.body, 'ENOENT') for h in
                         hs.get('IOError', []) + hs.get('OSError', []) + hs.get('FileNotFoundError', [])),
               'missing file (ENOENT) -> None', v, v.node)
